@@ -141,7 +141,7 @@ def weave_signed_shift(w, sc):
     VEC_RX = r"^\s*let mut (\w+) = (vec!\[\]|Vec::new\(\)|Vec::with_capacity\(.*\));$"
     i = w.find(VEC_RX)
     vec = re.match(VEC_RX, w.lines[i]).group(1)
-    i = w.find(r"^\s*let \w+ = cutoff \+ definitions\.len\(\);$")
+    i = w.find(r"^\s*let \w+ = .*\bcutoff\b.*;$", 1, w.find(r"^        Let\(definitions, body\) => \{$"))
     cut = re.match(r"^\s*let (\w+) = ", w.lines[i]).group(1)
     sub = lambda t: t.replace("$VEC", vec).replace("$CUT", cut)
     w.ascribe(VEC_RX, "Vec<(&'a str, Rc<Term<'a>>, Rc<Term<'a>>)>")
@@ -229,9 +229,9 @@ def weave_open(w, sc):
     i_let = w.find(r"^        Let\(definitions, body\) => \{$")
     w.lines[i_let + 1 : i_let + 1] = sc["open.let.pre"].rstrip("\n").split("\n")
     w.log["annotations"].append({"fn": w.name, "kind": "proof-after", "anchor": "Let(definitions, body) => {"})
-    i = w.find(r"^\s*let \w+ = index_to_replace \+ definitions\.len\(\);$")
+    i = w.find(r"^\s*let \w+ = .*\bindex_to_replace\b.*;$", 1, i_let)
     idx = re.match(r"^\s*let (\w+) = ", w.lines[i]).group(1)
-    i = w.find(r"^\s*let \w+ = shift_amount \+ definitions\.len\(\);$")
+    i = w.find(r"^\s*let \w+ = .*\bshift_amount\b.*;$", 1, i_let)
     shf = re.match(r"^\s*let (\w+) = ", w.lines[i]).group(1)
     map_collect_to_loop(w, r"^\s*(let \w+ = )?definitions$", "it", sc["open.let.loop"].replace("$IDX", idx).replace("$SHIFT", shf), body_pre=sc["open.let.body"])
     w.bind_tail(r"^            Term \{$", "opened", sc["open.let.tail.post"])
@@ -275,10 +275,10 @@ def once_chain_to_loop(w, start, invariant):
     i = w.find(r"^\s*once\(.*\)$", 1, start)
     ind = " " * (len(w.lines[i]) - len(w.lines[i].lstrip()))
     x = re.match(r"^\s*once\((.*)\)$", w.lines[i]).group(1)
-    m = re.match(r"^\s*\.chain\((\w+)\.iter\(\)\.skip\(1\)\.map\($", w.lines[i + 1])
+    m = re.match(r"^\s*\.chain\((\w+)\.iter\(\)\.skip\((\d+)\)\.map\($", w.lines[i + 1])
     if not m:
-        raise LostAnchor(f"{w._where(i+1)}: expected `.chain(E.iter().skip(1).map(`")
-    recv = m.group(1)
+        raise LostAnchor(f"{w._where(i+1)}: expected `.chain(E.iter().skip(N).map(`")
+    recv, skipn = m.group(1), m.group(2)
     m2 = re.match(r"^\s*\|(.*)\| \{$", w.lines[i + 2])
     if not m2:
         raise LostAnchor(f"{w._where(i+2)}: expected `|PAT| {{`")
@@ -287,7 +287,7 @@ def once_chain_to_loop(w, start, invariant):
     if w.lines[j].strip() != "}," or w.lines[j + 1].strip() != "))" or w.lines[j + 2].strip() != ".collect(),":
         raise LostAnchor(f"{w._where(j)}: expected `}},` `))` `.collect(),`")
     body = w.lines[i + 3 : j]
-    new = [ind + "{", ind + f"    let mut out: {DEFS_TY} = Vec::new();", ind + f"    out.push({x});", ind + f"    for k in 1..{recv}.len()"]
+    new = [ind + "{", ind + f"    let mut out: {DEFS_TY} = Vec::new();", ind + f"    out.push({x});", ind + f"    for k in {skipn}..{recv}.len()"]
     new += invariant.rstrip("\n").split("\n")
     new += [ind + "    {", ind + f"        let {pat} = &{recv}[k];", ind + "        out.push("] + body + [ind + "        );", ind + "    }", ind + "    out", ind + "},"]
     w.rewrite_lines("R4-once-chain-skip", i, j + 2, new, note="once(X).chain(E.iter().skip(1).map(f)).collect() as an explicit push loop from index 1")
@@ -301,8 +301,10 @@ def skip_map_collect_to_loop(w, first_regex, invariant, body_pre=None):
     if not m:
         raise LostAnchor(f"{w._where(i)}: expected `let v = E`")
     ind, head, recv = m.group(1), m.group(2), m.group(3)
-    if w.lines[i + 1].strip() != ".iter()" or w.lines[i + 2].strip() != ".skip(1)":
-        raise LostAnchor(f"{w._where(i+1)}: expected `.iter()` `.skip(1)`")
+    msk = re.match(r"^\.skip\((\d+)\)$", w.lines[i + 2].strip())
+    if w.lines[i + 1].strip() != ".iter()" or not msk:
+        raise LostAnchor(f"{w._where(i+1)}: expected `.iter()` `.skip(N)`")
+    skipn = msk.group(1)
     m2 = re.match(r"^\s*\.map\(\|(.*)\| \{$", w.lines[i + 3])
     if not m2:
         raise LostAnchor(f"{w._where(i+3)}: expected `.map(|PAT| {{`")
@@ -311,7 +313,7 @@ def skip_map_collect_to_loop(w, first_regex, invariant, body_pre=None):
     if w.lines[j].strip() != "})" or w.lines[j + 1].strip() != ".collect();":
         raise LostAnchor(f"{w._where(j)}: expected `}})` `.collect();`")
     body = w.lines[i + 4 : j]
-    new = [ind + head + "{", ind + f"    let mut out: {DEFS_TY} = Vec::new();", ind + f"    for k in 1..{recv}.len()"]
+    new = [ind + head + "{", ind + f"    let mut out: {DEFS_TY} = Vec::new();", ind + f"    for k in {skipn}..{recv}.len()"]
     new += invariant.rstrip("\n").split("\n")
     new += [ind + "    {", ind + f"        let {pat} = &{recv}[k];"]
     if body_pre:
@@ -417,7 +419,7 @@ def weave_step(w, sc, strict=False):
     hoist_argument(w, r"^\s*let unfolded_definition = open\($", r"^\s*&Term \{$", "inserted", sc["step.let.inserted.post"])
     w.after(r"^\s*let unfolded_definition = open\($", sc["step.let.unfolded.post"])
     skip_map_collect_to_loop(w, r"^\s*let substituted_definitions = definitions$", sc["step.let.subst.loop"], body_pre=sc["step.let.subst.body"])
-    w.before(r"^\s*let substituted_body = open\(body, index, &unfolded_definition, 0\);$", sc["step.let.body.pre"])
+    w.before(r"^\s*let substituted_body = open\(.*\);$", sc["step.let.body.pre"])
     i_sb = w.find(r"^\s*let substituted_body = open\(")
     i_fin = w.find(r"^\s*Some\(Term \{$", 1, i_sb)
     ind = len(w.lines[i_fin]) - len(w.lines[i_fin].lstrip())
@@ -433,7 +435,7 @@ def weave_evaluate(w, sc):
     stepped = re.match(r"^        term = (\w+);$", w.lines[i]).group(1)
     w.lines[i:i] = sc["evaluate.loop.body.pre"].replace("$STEPPED", stepped).rstrip("\n").split("\n")
     w.after(r"^        term = \w+;$", sc["evaluate.loop.body.post"])
-    w.before(r"^    if is_value\(&term\) \{$", sc["evaluate.after"])
+    w.before(r"^    if !?is_value\(&\w+\) \{$", sc["evaluate.after"])
     w.rewrite_regex("R5-stuck-message", r'format!\("Evaluation of \{\} is stuck!", term\.to_string\(\)\.code_str\(\)\)', "stuck_message(&term)", expect=1, note="message text is not part of C02; Display/format! are outside the verifier's reach")
 
 
